@@ -27,6 +27,8 @@ ROB(T_sok, &CO_Tree::structure_OK, bool (CO_Tree::*)() const)
 ROB(T_idx, &CO_Tree::indexes, dim_t* CO_Tree::*)
 ROB(T_rs, &CO_Tree::reserved_size, dim_t CO_Tree::*)
 ROB(T_sz, &CO_Tree::size_, dim_t CO_Tree::*)
+ROB(T_md, &CO_Tree::max_depth, unsigned CO_Tree::*)
+ROB(T_data, &CO_Tree::data, Coefficient* CO_Tree::*)
 ROB(T_bn, &CO_Tree::bisect_near, dim_t (CO_Tree::*)(dim_t, dim_t) const)
 ROB(T_bi, &CO_Tree::bisect_in, dim_t (CO_Tree::*)(dim_t, dim_t, dim_t) const)
 ROB(S_tree, &Sparse_Row::tree, CO_Tree Sparse_Row::*)
@@ -886,6 +888,127 @@ static void gen_kf(long which, const std::string& hid) {
   }
 }
 
+
+// =================================================================================================
+//  stage 2: layout journal for the rebalancing machinery (--reb 1).  One line per operation:
+//    L <id> <op> <args…> | <returned key|end|-> | <rs> <max_depth> <size_> <OK()> | <indexes[0]> <indexes[rs+1]> | <slots 1..rs>
+//  a used slot prints as key:value, a run of n unused slots as _n.  The driver replays the model
+//  from the previous REAL layout and demands the identical layout.
+// =================================================================================================
+struct RebH {
+  CO_Tree t; std::string hid; long step; std::vector<std::string> oplog;
+  RebH() : step(0) {}
+  static std::string layout(const CO_Tree& x) {
+    dim_t rs = x.*get(T_rs()); unsigned md = x.*get(T_md()); dim_t sz = x.*get(T_sz());
+    std::string s = ls((long)rs) + " " + ls((long)md) + " " + ls((long)sz) + " " + ((x.*get(T_ok()))() ? "1" : "0") + " |";
+    if (rs == 0) return s + " - - |";
+    dim_t* ix = x.*get(T_idx()); Coefficient* dt = x.*get(T_data());
+    s += " " + ls((long)ix[0]) + " " + ls((long)ix[rs + 1]) + " |";
+    long run = 0;
+    for (dim_t p = 1; p <= rs; ++p) {
+      if (ix[p] == UNUSED) { ++run; continue; }
+      if (run) { s += " _" + ls(run); run = 0; }
+      s += ' '; s += ls((long)ix[p]); s += ':'; s += cs(dt[p]);
+    }
+    if (run) s += " _" + ls(run);
+    return s;
+  }
+  void line(const std::string& op, const std::string& ret) {
+    ++step; J.line("L " + hid + "." + ls(step) + " " + op + " | " + ret + " | " + layout(t));
+  }
+  std::string key_of(CO_Tree::iterator i) { return i == t.end() ? std::string("end") : ls((long)i.index()); }
+  void ins(dim_t k, long v) { CO_Tree::iterator i = t.insert(k, Coefficient(v)); line("ins " + ls((long)k) + " " + ls(v), key_of(i)); }
+  void era(dim_t k) { CO_Tree::iterator i = t.erase(k); line("era " + ls((long)k), key_of(i)); }
+  void bulk(const std::vector<std::pair<dim_t, Coefficient> >& v) {
+    VecIt it; it.v = &v; it.i = 0; CO_Tree c(it, v.size()); t.m_swap(c);
+    std::string op = "bulk"; for (auto& p : v) { op += ' '; op += ls((long)p.first); op += ':'; op += cs(p.second); }
+    line(op, "-");
+  }
+  void apply(const Op& o) {
+    if (o.name == "ins") ins((dim_t)o.l(0), o.l(1));
+    else if (o.name == "era") era((dim_t)o.l(0));
+    else if (o.name == "bulk") {
+      std::vector<std::pair<dim_t, Coefficient> > v;
+      for (auto& a : o.a) { size_t c = a.find(':'); if (c == std::string::npos) continue;
+        dim_t k = (dim_t)atol(a.substr(0, c).c_str()); if (!v.empty() && v.back().first >= k) return;
+        v.push_back(std::make_pair(k, Coefficient(a.substr(c + 1).c_str()))); }
+      bulk(v);
+    }
+  }
+};
+
+// sizes: class 0 small (<= 3..31 slots), 1 medium (<= 255), 2 large (crossing 511/1023 slots)
+static void run_reb(long b, long seed) {
+  std::string hid = "q" + ls(b);
+  pplv::Rng R((uint64_t)seed * 7000003ull + (uint64_t)b * 31ull + 17ull);
+  unsigned sc = (unsigned)(b % 40);
+  unsigned cls = sc < 28 ? 0 : (sc < 37 ? 1 : 2);
+  long N = cls == 0 ? R.range(2, 34) : cls == 1 ? R.range(35, 230) : R.range(470, 940);
+  unsigned order = (unsigned)R.below(6);        // 0 ascending 1 descending 2 random 3 clustered 4 mixed ins/era 5 bulk first
+  unsigned storm = (unsigned)R.below(4);        // erase storm: 0 ascending 1 descending 2 random 3 from the middle outwards
+  static const char* on[] = { "asc", "desc", "rnd", "clu", "mix", "bulk" };
+  J.line("H " + hid + " reb " + on[order] + " " + ls(N) + " " + ls((long)storm));
+  RebH H; H.hid = hid;
+  std::vector<dim_t> keys;
+  long span = N * (long)R.range(1, 6) + 3;
+  if (order == 0 || order == 1 || order == 5) {
+    dim_t k = (dim_t)R.range(0, 3);
+    for (long i = 0; i < N; ++i) { keys.push_back(k); k += (dim_t)R.range(1, 4); }
+    if (order == 1) std::reverse(keys.begin(), keys.end());
+  } else if (order == 2 || order == 4) {
+    std::map<dim_t, bool> seen;
+    while ((long)keys.size() < N) { dim_t k = (dim_t)R.range(0, span); if (!seen[k]) { seen[k] = true; keys.push_back(k); } }
+  } else {
+    std::map<dim_t, bool> seen; long nc = R.range(1, 4); std::vector<long> centre;
+    for (long c = 0; c < nc; ++c) centre.push_back(R.range(0, span) * 8);
+    long guard = 0;
+    while ((long)keys.size() < N && guard++ < 40 * N) {
+      long c = centre[R.below((unsigned)nc)]; long w = std::max(4L, 2 * N / nc);
+      long k = c + R.range(-w, w); if (k < 0) k = -k;
+      if (!seen[(dim_t)k]) { seen[(dim_t)k] = true; keys.push_back((dim_t)k); }
+    }
+  }
+  if (order == 5) {
+    std::vector<std::pair<dim_t, Coefficient> > v;
+    for (size_t i = 0; i < keys.size(); ++i) v.push_back(std::make_pair(keys[i], Coefficient(R.range(-9, 9))));
+    H.bulk(v);
+    long extra = R.range(1, std::max(2L, N / 2));
+    for (long i = 0; i < extra; ++i) { dim_t k = (dim_t)R.range(0, (long)keys.back() + 3); H.ins(k, R.range(-9, 9)); bool has = false; for (dim_t q : keys) if (q == k) has = true; if (!has) keys.push_back(k); }
+  } else if (order == 4) {
+    std::vector<dim_t> in;
+    for (long i = 0; i < 3 * N; ++i) {
+      if (in.empty() || R.chance(3, 5)) { dim_t k = keys[R.below((unsigned)keys.size())]; H.ins(k, R.range(-9, 9)); bool has = false; for (dim_t q : in) if (q == k) has = true; if (!has) in.push_back(k); }
+      else { size_t j = R.below((unsigned)in.size()); dim_t k = R.chance(1, 8) ? (dim_t)R.range(0, span) : in[j]; H.era(k);
+             for (size_t q = 0; q < in.size(); ++q) if (in[q] == k) { in.erase(in.begin() + q); break; } }
+    }
+    keys = in;
+  } else {
+    for (size_t i = 0; i < keys.size(); ++i) { H.ins(keys[i], R.range(-9, 9)); if (R.chance(1, 12)) H.ins(keys[R.below((unsigned)(i + 1))], R.range(-9, 9)); }
+  }
+  // erase storm
+  std::vector<dim_t> ks = keys; std::sort(ks.begin(), ks.end());
+  if (storm == 1) std::reverse(ks.begin(), ks.end());
+  else if (storm == 2) { for (size_t i = ks.size(); i > 1; --i) std::swap(ks[i - 1], ks[R.below((unsigned)i)]); }
+  else if (storm == 3) { std::vector<dim_t> o; size_t m = ks.size() / 2; for (size_t d = 0; d <= ks.size(); ++d) { if (m + d < ks.size()) o.push_back(ks[m + d]); if (d && d <= m) o.push_back(ks[m - d]); } ks = o; }
+  size_t stop = R.chance(1, 3) ? ks.size() / 2 : ks.size();
+  for (size_t i = 0; i < stop; ++i) { H.era(ks[i]); if (R.chance(1, 16)) H.era(ks[i] + 1); }
+  // grow again after the storm
+  if (stop < ks.size()) for (long i = 0; i < std::min(20L, N); ++i) H.ins((dim_t)R.range(0, span), R.range(-9, 9));
+  J.line("E " + hid);
+}
+
+static void run_rebreplay(const char* path) {
+  FILE* f = fopen(path, "r"); if (!f) { perror(path); _exit(3); }
+  char buf[1 << 18]; RebH H; H.hid = "q0";
+  J.line("H q0 reb replay 0 0");
+  while (fgets(buf, sizeof buf, f)) {
+    std::istringstream is(buf); Op o; o.kind = "reb"; if (!(is >> o.name)) continue; std::string t; while (is >> t) o.a.push_back(t);
+    H.apply(o);
+  }
+  fclose(f);
+  J.line("E q0");
+}
+
 static void run_history(long b, long seed, long len_opt, bool kf) {
   std::string hid = "h" + ls(b);
   if (kf) { J.line("H " + hid + " kf " + ls(b)); gen_kf(b, hid); J.line("E " + hid); return; }
@@ -917,6 +1040,12 @@ static void run_replay(const char* path) {
 int main(int argc, char** argv) {
   const char* rp = pplv::arg_str(argc, argv, "--replay", nullptr);
   if (rp) return pplv::run_batches(0, 1, [&](long) { run_replay(rp); }, 20);
+  { const char* rr = pplv::arg_str(argc, argv, "--rebreplay", nullptr);
+    if (rr) return pplv::run_batches(0, 1, [&](long) { run_rebreplay(rr); }, 20);
+    if (pplv::arg_long(argc, argv, "--reb", 0)) {
+      long seed = pplv::arg_long(argc, argv, "--seed", 1), first = pplv::arg_long(argc, argv, "--first", 0), last = pplv::arg_long(argc, argv, "--last", 40);
+      return pplv::run_batches(first, last, [&](long bb) { run_reb(bb, seed); }, 20);
+    } }
   { const char* rp2 = pplv::arg_str(argc, argv, "--repaired", "");
     for (const char* q = rp2; *q; ++q) if (*q >= '1' && *q <= '7') repaired[*q - '0'] = true; }
   long seed = pplv::arg_long(argc, argv, "--seed", 1), first = pplv::arg_long(argc, argv, "--first", 0),
